@@ -485,11 +485,11 @@ def parent_main(pid, tier, seed, jobs=None, only_kind=None):
         elif p.returncode == -9 and not os.path.exists(fp):
             pass
     return finish_parent(mod, pid, tier, seed, frags, problems,
-                         inconclusive_shards, t0)
+                         inconclusive_shards, t0, partial=bool(only_kind))
 
 
 def finish_parent(mod, pid, tier, seed, frags, problems, inconclusive_shards,
-                  t0):
+                  t0, partial=False):
     ev = 0
     hashes = set()
     extra = 0
@@ -599,6 +599,8 @@ def finish_parent(mod, pid, tier, seed, frags, problems, inconclusive_shards,
             lines.append("  detail=%s" % (d or "")[-800:].replace("\n", "\n    "))
     if rc == 0:
         floor = max(2, int(getattr(mod, "NONTRIVIAL_FLOOR", {}).get(tier, 2)))
+        if partial:
+            floor = 2          # --kind runs exercise part of the property only
         if ev < 1 or distinct < floor or not samples:
             rc = 2
             lines.append("HARNESS-ERROR property=%s too few non-trivial cases "
